@@ -18,8 +18,13 @@
     * human report → primary; JSON report → cyborg file if given, else primary; each through `?`
     * `main`: an `Err(e)` with `e.kind() == BrokenPipe` is swallowed (status 0, no diagnostic),
       every other error prints `Error: {e}` and exits 1
+    * after the reports: `output.flush()?` (fix 433988c) — what standard output's `LineWriter` still holds
+      is written NOW and a failure is an error like any other (status 1, `Error: …`; broken pipe: status 0)
+    * `--use-local-debuginfo` on a dump whose CPU is neither x86-64 nor arm64 (or without readable system
+      info): `error!` + exit(1) after the files were created, before processing (fix fb88910)
     * process exit (normal return and `process::exit` alike) flushes what standard output's
-      `LineWriter` still holds and IGNORES the result (std::rt::cleanup)
+      `LineWriter` still holds and IGNORES the result (std::rt::cleanup) — after the explicit flush this
+      only matters on the failure paths
 
   A report is a byte string together with `pend`, the number of its trailing bytes that are still
   inside standard output's `LineWriter` when the printer returns (0 for a report that ends in a
@@ -124,6 +129,12 @@ def Stdout.write (s : Stdout) (r : Rep) : Stdout × Option ErrKind :=
   else
     ({ s with out := s.out ++ now.take k, buf := [] }, some s.kind)
 
+/-- `flush()`: write what the `LineWriter` holds; the error is reported -/
+def Stdout.flush (s : Stdout) : Stdout × Option ErrKind :=
+  let k := s.room s.buf.length
+  if k = s.buf.length then ({ s with out := s.out ++ s.buf, buf := [] }, none)
+  else ({ s with out := s.out ++ s.buf.take k, buf := [] }, some s.kind)
+
 /-- process exit: flush, ignoring the result -/
 def Stdout.atExit (s : Stdout) : Stdout :=
   { s with out := s.out ++ s.buf.take (s.room s.buf.length), buf := [] }
@@ -136,6 +147,7 @@ inductive Diag where
   | briefInvalid       -- `error!("Robots cannot be brief! …")`
   | readError          -- `error!("{} - Error reading dump: {}")`
   | processError       -- `error!("{} - Error processing dump: {}")` (also: system info missing with --use-local-debuginfo)
+  | localDebuginfoError -- `error!("Local debug info is only supported for x86-64 and arm64 dumps …")`
   | panicLogged        -- the panic hook's `error!("Panic - …")`
   deriving DecidableEq, Repr
 
@@ -152,6 +164,8 @@ structure Cfg where
   outputFile : Option Path
   logFile : Option Path
   verboseOff : Bool            -- `--verbose off`: `error!` prints nothing
+  /-- `--use-local-debuginfo` was given AND the dump's CPU is not one the debuginfo provider supports -/
+  localUnsupported : Bool
 
 structure Reports where
   human : Rep
@@ -206,6 +220,21 @@ def emit (w : World) (wr : Writer) (r : Rep) : World × Writer × Option ErrKind
     let (w', h', e) := emitFile w h r
     (w', .file h', e)
 
+/-- `output.flush()` on the primary writer (a `File` has nothing to flush) -/
+def flushPrimary (w : World) : Writer → World × Option ErrKind
+  | .stdout => ({ w with stdout := w.stdout.flush.1 }, w.stdout.flush.2)
+  | .file _ => (w, none)
+
+/-- `output.flush()?; Ok(())` -/
+def finishOk (w : World) (out : Writer) : Result :=
+  done (flushPrimary w out).1 (flushPrimary w out).2
+
+/-- the result `e` of the last report write through `?`, then `output.flush()?; Ok(())` -/
+def doneThen (w : World) (e : Option ErrKind) (out : Writer) : Result :=
+  match e with
+  | some k => failWith w k
+  | none => finishOk w out
+
 def openOpt (w : World) (p : Option Path) : Option (World × Option Handle) :=
   match p with
   | none => some (w, none)
@@ -237,9 +266,10 @@ def emitIf (b : Bool) (w : World) (wr : Writer) (r : Rep) : World × Writer × O
 def writeJson (f : Flags) (reps : Reports) (json : Bool) (cy : Option Handle) (out : Writer) (w : World) : Result :=
   if json then
     match cy with
-    | some h => done (emitFile w h (jsonRep f reps)).1 (emitFile w h (jsonRep f reps)).2.2
-    | none => done (emit w out (jsonRep f reps)).1 (emit w out (jsonRep f reps)).2.2
-  else finish 0 w
+    | some h => doneThen (emitFile w h (jsonRep f reps)).1 (emitFile w h (jsonRep f reps)).2.2 out
+    | none => doneThen (emit w out (jsonRep f reps)).1 (emit w out (jsonRep f reps)).2.2
+                (emit w out (jsonRep f reps)).2.1
+  else finishOk w out
 
 /-- main.rs:491-511: human report first, then JSON; every write through `?` -/
 def writeReports (f : Flags) (reps : Reports) (human json : Bool) (cy : Option Handle) (out : Writer)
@@ -253,11 +283,14 @@ def writeReports (f : Flags) (reps : Reports) (human json : Bool) (cy : Option H
 def afterOpen (render : Diag → Bytes) (cfg : Cfg) (inp : Input) (reps : Reports) (human json : Bool)
     (lg cy : Option Handle) (out : Writer) (w : World) : Result :=
   if cfg.flags.dump then
-    done (emit w out (dumpRep cfg.flags reps)).1 (emit w out (dumpRep cfg.flags reps)).2.2
+    doneThen (emit w out (dumpRep cfg.flags reps)).1 (emit w out (dumpRep cfg.flags reps)).2.2
+      (emit w out (dumpRep cfg.flags reps)).2.1
   else
     match inp with
     | .unprocessable => finish 1 (logErr render cfg w lg .processError)
-    | _ => writeReports cfg.flags reps human json cy out w
+    | _ =>
+      if cfg.localUnsupported then finish 1 (logErr render cfg w lg .localDebuginfoError)
+      else writeReports cfg.flags reps human json cy out w
 
 /-- the part of `main_result` after the dump was read (main.rs:408-516): the cyborg file is created
     first, then the output file, then the reports are produced -/
